@@ -29,7 +29,9 @@ CAST = {
     # trailing levels: a level is a string like any other - nothing in a name may move it to another tenant or be tidied away
     "publishers": [{"c": 8, "n": 1, "user": "tenant:A", "topics": [["st", "dev"], ["x"], ["B", "x"], ["..", "@B", "x"], ["", "lead"], ["e", "", "l"], ["d", "..", "up"]],
                     "q": 1, "r": True},
-                   {"c": 9, "n": 2, "user": "tenant:B", "topics": [["st", "dev"], ["x"], ["A", "x"], ["trail", ""], [".", "dot"], ["x", ".", "y"]], "q": 0, "r": False}],
+                   {"c": 9, "n": 2, "user": "tenant:B", "topics": [["st", "dev"], ["x"], ["A", "x"], ["trail", ""], [".", "dot"], ["x", ".", "y"]], "q": 0, "r": False},
+                   # a QoS 2 publisher whose PUBREL comes only after the other tenants' publishes of the same round
+                   {"c": 10, "n": 1, "user": "tenant:A", "topics": [["alarms", "door"], ["st", "dev"], ["q2"]], "q": 2, "r": False}],
 }
 
 
